@@ -1,5 +1,6 @@
 #!/bin/bash
 # usage: tools/benign.sh  — applies every behaviour-preserving rewrite under /verif/benign, runs all quick checks, reverts.
+export VERIF_EVIDENCE_DIR=/verif/work/evidence-scratch   # keep the committed evidence (unchanged tree, seed 1) intact
 cd /verif
 props="C01 C02 C03 C04 C05 C06 C07 C08 C09 C10 C11 C12 C13 C14 C15 C16 C17 C18 C19 C20"
 files="${@:-benign/*.diff}"
